@@ -146,6 +146,55 @@ def job_nonuniform_radial(jc):
     jc.expect_reached("ok", "ValueError")
 
 
+HEXDIGITS = "1A0f7c93Be5D"
+
+
+def replay_hex_len(inp):
+    from oracle import css_color
+
+    n = int(inp["n"])
+    sstr = "#" + HEXDIGITS[:n]
+    legal = n in (3, 4, 6, 8)
+    try:
+        c = Color.fromstring(sstr, alpha=float(inp.get("alpha", 1)))
+    except ValueError:
+        return {"string": sstr, "rejected": True} if legal else None
+    if not legal:
+        return {"string": sstr, "accepted as": repr(c), "problem": f"{n} hex digits is not a CSS colour; the shape would be drawn with a substituted paint"}
+    w = css_color.parse(sstr)
+    if tuple(c[:3]) != w.rgb:
+        return {"string": sstr, "parsed": list(c[:3]), "expected": list(w.rgb)}
+    return None
+
+
+def job_hex_len(jc):
+    """Color.fromstring on '#' + n hex digits, n a solver variable in 1..12 (concretised by forking), caller alpha
+    symbolic: accepted exactly for the CSS lengths 3, 4, 6, 8 -- anything else must raise, never be truncated."""
+    from oracle import css_color
+
+    jc.encode(Color.fromstring)
+    inp = {"n": core.SymNum(z3.Int("n")), "alpha": core.SymNum(z3.Real("alpha"))}
+
+    def body():
+        n = core.integer("n", 1, 12).concretize()
+        return n, Color.fromstring("#" + HEXDIGITS[:n], alpha=core.real("alpha", 0, 1))
+
+    results = jc.explore(body, catch=(ValueError,))
+    N = z3.Int("n")
+    legal = z3.Or(N == 3, N == 4, N == 6, N == 8)
+    for r in results:
+        if r.exc is not None:
+            jc.reach(r, "ValueError")
+            jc.prove(r, z3.Not(legal), "a 3/4/6/8 digit hex colour is accepted", inp, replay_hex_len, key="C17:hex-length:spurious")
+            continue
+        n, c = r.value
+        jc.reach(r, "accepted")
+        ok = n in (3, 4, 6, 8) and tuple(c[:3]) == css_color.parse("#" + HEXDIGITS[:n]).rgb
+        jc.prove(r, z3.And(legal, z3.BoolVal(ok)), "a hex colour with any other number of digits raises ValueError (never truncated to a different colour)", inp, replay_hex_len, key="C17:hex-length:accepted")
+    jc.expect_reached("ValueError", "accepted")
+
+
+
 def jobs(tier):
     from harness import C15, C14, C10, C16, C16_radial, C04_gid
 
@@ -165,6 +214,7 @@ def jobs(tier):
     for case in BAD_GRADIENTS:
         js.append(Job(f"bad fill[{case}]", job_bad_fill, case=case))
     js.append(Job("radial non-uniform mapping (OT-SVG)", job_nonuniform_radial))
+    js.append(Job("hex colour length", job_hex_len))
     return js
 
 
